@@ -294,7 +294,10 @@ func checkC04(c *Ctx) {
 	}
 	sort.Strings(keys)
 	nrep := 0
-	for _, k := range keys {
+	for i, k := range keys {
+		if i%20 == 0 {
+			c.Sample(map[string]interface{}{"projected_interleaving": k})
+		}
 		for _, kind := range c04SinkKinds {
 			if c.Saturated() {
 				break
